@@ -21,5 +21,5 @@ P("C35",
   trusted=["modelled, not verified: datarecording/datarecorder.go (InsertData, Flush/flushLocked, insertEntryForTable, getLocationID, "
            "flushLocationTable, Close), datarecording/datareader.go is used as the observer (Query, restoreStrLocation)",
            "verif-tagged hook datarecording.SetBatchSizeForVerif"],
-  race=True, quick_shards=4,
+  race=True, quick_shards=8,
   )
